@@ -14,7 +14,7 @@ PROPERTY = dict(
                 "exception, output of unit norm (RR^T = I for matrices); plus N = 3 batch runs for the shape clause. One step "
                 "from an arbitrary valid state covers histories of any length provided the post-state is valid, which is itself "
                 "an obligation. Batch constructors (Mahony, Fourati, AQUA, Tilt, FQA, TRIAD, OLEQ) are run over N = 2 samples at exact "
-                "rational poses (level, level with heading, upside down, upside down with heading; pitched and generic in the "
+                "rational poses (level, level with heading, upside down, upside down with heading; pitched in the "
                 "thorough tier) with symbolic sensor scales, so that the special-case branches of the initial-attitude code "
                 "(half-turns, zero roll/pitch) are taken exactly: one finite unit quaternion per sample.",
     bounds="one step from an arbitrary valid state; N <= 3 for constructors; OLEQ loop bound 3; QUEST / FLAE-newton in the "
@@ -283,8 +283,7 @@ from fractions import Fraction as _Fr
 POSES = {
     'level': (1, 0, 0, 0), 'level-heading': (_Fr(4, 5), 0, 0, _Fr(3, 5)), 'upside-down': (0, 1, 0, 0),
     'upside-down-heading': (0, _Fr(3, 5), _Fr(4, 5), 0), 'pitched': (_Fr(4, 5), 0, _Fr(3, 5), 0),
-    'generic': (_Fr(1, 5), _Fr(2, 5), _Fr(2, 5), _Fr(4, 5)),
-}
+}       # (a generic rational pose was tried as well: its worker exceeds the wall / memory limits, so it is not part of the claim)
 
 
 def _rows_ok(h, tag, Q, n):
@@ -296,7 +295,7 @@ def _rows_ok(h, tag, Q, n):
 
 
 def _mk_pose(pname, q):
-    @harness(f'C03/batch.{pname}', tiers=('thorough',) if pname in ('pitched', 'generic') else ('quick', 'thorough'), functions=[FF + 'mahony:Mahony._compute_all', FF + 'fourati:Fourati._compute_all', FF + 'aqua:AQUA._compute_all',
+    @harness(f'C03/batch.{pname}', tiers=('thorough',) if pname == 'pitched' else ('quick', 'thorough'), functions=[FF + 'mahony:Mahony._compute_all', FF + 'fourati:Fourati._compute_all', FF + 'aqua:AQUA._compute_all',
                                                FF + 'fqa:FQA.estimate', FF + 'triad:TRIAD.estimate', FF + 'tilt:Tilt._compute_all',
                                                FF + 'oleq:OLEQ._compute_all', 'ahrs.common.orientation:am2q', 'ahrs.common.orientation:dcm2quat',
                                                'ahrs.common.orientation:ecompass', 'ahrs.common.orientation:chiaverini'],
